@@ -13,6 +13,13 @@ CONSTRUCTION from the request that was sent to it -- no model of ombott is invol
                started/finished at top level in between, or running on another thread), `request.copy()` (own or
                another application's request object; the copy is then modified), `ombott.Ombott()` constructed inside
                a handler or on another thread, a new application constructed and used inside a handler.
+  I4 forward   `fwd`: the handler of X copies its request (X.request.copy()), re-targets the copy through the item interface
+               (PATH_INFO, QUERY_STRING, x.rid; with `rewrite` also HTTP_X_ID and HTTP_COOKIE) and serves application Y with
+               THE COPY'S ENVIRON, nested in its handler -- with (`look`) or without an earlier read of X.request.headers /
+               cookies.  While Y's handler runs, Y.request must show what that environ says: request.app is Y (not X), path /
+               query of the re-targeted request, header X-Id and cookie cid as the copy's environ holds them (the rewritten
+               ones, or X's when they were not rewritten); and X's objects keep showing X's request (request.app is X).
+               Reported as I1.view_changed with the extra fields `app_is_mine`, `xid`, `cid`.
   I3 own copy  the same, when the only operation before the change was X copying its OWN request (reported under a
                separate clause id: the copy is not X's request object, X's must keep showing X's request).
   I0 raised    none of these operations raises (constructing an application or copying a request while another
@@ -50,7 +57,12 @@ BOUND = ('arrangements of 2..3 applications out of {A, B, C fresh, D = module-le
          'pair, else every schedule with <= 3 hand-overs; statement granularity (every traced line of the ombott package is a '
          'hand-over point) with one preemption at EVERY statement of thread 0 (quick: arrangements (A,B) and (D,A), thread 1 in '
          '{Ombott(), plain request, request + copy}; thorough: all arrangements and programs, plus every 3rd statement of thread 1); '
-         'free race 3 cases x 30 rounds (quick) / 12 x 150 (thorough).')
+         'free race 3 cases x 30 rounds (quick) / 12 x 150 (thorough). FORWARDING over Request.copy() (one thread, every '
+         'arrangement, every other application Y as target): X copies its request, re-targets the copy and serves Y with the '
+         'environ of the copy x header/cookie rewrite on the copy {no, yes} x earlier read of X.request.headers/cookies {no, yes} x '
+         'lazy body of Y {no, yes} x inner script of Y {nothing, copy, forward on to the third application (rewrite+look / '
+         'neither)} x before it {nothing, copy, plain nested call of Y, another forward} x outer body lazy {no, yes}; two '
+         'threads: thread 0 forwards (rewrite, look) while thread 1 serves the other application, all interleavings of the explicit points.')
 NONTRIVIAL_RULE = ('distinct (mode, arrangement, programs, schedule); non-trivial = at least one foreign operation happens while '
                    'a request is in progress (one thread), resp. at least one thread is preempted inside its request (two threads)')
 
@@ -65,6 +77,7 @@ def exhaustive(tier):
 # ---------------------------------------------------------------------------------------------
 # programs (plain JSON): op = [name, ...]
 #   handler ops : ['call', app, rid, script, lazy]  ['copy']  ['copyof', app]  ['new']  ['newserve', rid, script]
+#                 ['fwd', app, rid, script, lazy, rewrite, look]   (app is served with the environ of a copy of the request)
 #   top level   : ['serve', app, rid, script, lazy]  ['start', app, rid, script]  ['drain', rid]  ['new']
 # ---------------------------------------------------------------------------------------------
 class _Rids:
@@ -101,8 +114,8 @@ def _alphabet(cfg, rid):
 
 def _fresh_rids(op, rid):
     """Copy of an op with new request ids (an op may be used twice in one script)."""
-    if op[0] == 'call':
-        return ['call', op[1], rid(), [_fresh_rids(o, rid) for o in op[3]], op[4]]
+    if op[0] in ('call', 'fwd'):
+        return [op[0], op[1], rid(), [_fresh_rids(o, rid) for o in op[3]]] + list(op[4:])
     if op[0] == 'newserve':
         return ['newserve', rid(), [_fresh_rids(o, rid) for o in op[2]]]
     return list(op)
@@ -111,14 +124,14 @@ def _fresh_rids(op, rid):
 def _walk(ops):
     for op in ops:
         yield op
-        if op[0] in ('call', 'serve', 'start'):
+        if op[0] in ('call', 'serve', 'start', 'fwd'):
             yield from _walk(op[3])
         elif op[0] == 'newserve':
             yield from _walk(op[2])
 
 
 def _foreign_ops(program):
-    return sum(1 for op in _walk(program) if op[0] in ('call', 'copy', 'copyof', 'new', 'newserve'))
+    return sum(1 for op in _walk(program) if op[0] in ('call', 'copy', 'copyof', 'new', 'newserve', 'fwd'))
 
 
 def nontrivial(case):
@@ -165,11 +178,38 @@ def _two_thread_programs(cfg, quick=False):
             yield t0, [['serve', other, rid(), s1, 0]], (k < 2 or not quick)
     # lazily produced bodies on both sides
     yield [['serve', outer, rid(), [], 1]], [['serve', other, rid(), [['copy']], 1]], not quick
+    # thread 0 forwards a copy of its request to the other application, thread 1 serves that application too
+    yield [['serve', outer, rid(), [['fwd', other, rid(), [], 0, 1, 1]], 0]], [['serve', other, rid(), [], 0]], False
+    if not quick:
+        yield [['serve', outer, rid(), [['fwd', other, rid(), [['copy']], 1, 0, 1]], 0]], [['serve', other, rid(), [['copy']], 0]], False
+
+
+def _forward_cases(cfg):
+    """one thread: the outer application serves another one with the environ of a copy of its own request"""
+    outer = cfg[0]
+    for y in cfg[1:]:
+        third = [a for a in cfg if a not in (outer, y)]
+        for rewrite, look, lazy in itertools.product((0, 1), repeat=3):
+            inners = [[], [['copy']]]
+            for z in third:
+                inners.append([['fwd', z, 'i1', [], 0, 1, 1]])
+                inners.append([['fwd', z, 'i1', [['copy']], 0, 0, 0]])
+            for inner in inners:
+                fwd = ['fwd', y, 'f1', inner, lazy, rewrite, look]
+                for pre in ([], [['copy']], [['call', y, 'p1', [], 0]], [['fwd', y, 'p1', [], 0, 1 - rewrite, look]]):
+                    for olazy in (0, 1):
+                        r2 = _Rids()
+                        script = [_fresh_rids(o, r2) for o in pre + [fwd]]
+                        yield dict(mode='one', apps=cfg, threads=[[['serve', outer, r2(), script, olazy]]])
 
 
 def gen_cases(tier, seed):
     quick = tier == 'quick'
     maxlen = 2 if quick else 3
+    # ---- one thread, forwarding over Request.copy()
+    for cfg in CONFIGS:
+        for c in _forward_cases(cfg):
+            yield c
     # ---- one thread, nested
     for cfg in CONFIGS:
         rid = _Rids()
@@ -257,13 +297,14 @@ class World:
         self.lock = threading.Lock()
         self.reg_lock = threading.Lock()
         self.nnew = 0
+        self.has_fwd = any(op[0] == 'fwd' for prog in programs for op in _walk(prog))
         for name in cfg:
             app = ombott.app if name == 'D' else ombott.Ombott()
             self.install(name, app)
         code = 0
         for prog in programs:
             for op in _walk(prog):
-                if op[0] in ('call', 'serve', 'start'):
+                if op[0] in ('call', 'serve', 'start', 'fwd'):
                     _, name, rid, script, *rest = op
                     lazy = (rest[0] if rest else 0) or op[0] == 'start'
                     self.register(rid, name, script, lazy, CODES[code % len(CODES)])
@@ -310,7 +351,11 @@ class World:
     # ------------------------------------------------------------ the contract: views by construction
     def expected_view(self, fr):
         rid = fr['rid']
-        exp = dict(env_is_mine=True, marker=rid, path='/c10/' + rid, qs='id=' + rid, xid=rid, cid=rid)
+        exp = dict(env_is_mine=True, marker=rid, path='/c10/' + rid, qs='id=' + rid, xid=fr.get('xid', rid), cid=fr.get('cid', rid))
+        if self.has_fwd:
+            exp['app_is_mine'] = True
+        if fr.get('defer_headers'):
+            del exp['xid'], exp['cid']           # this request's headers must not be looked at before it forwards
         if fr['stage'] == 'entry':
             exp.update(code=200, x_rid=None, x_app=None, cookie=False)
         else:
@@ -320,18 +365,24 @@ class World:
     def read_view(self, fr):
         rq, rs = fr['app'].request, fr['app'].response
         rid = fr['rid']
-        return dict(
+        defer = bool(fr.get('defer_headers'))
+        got = dict(
             env_is_mine=_safe(lambda: rq.environ is fr['env']),
             marker=_safe(lambda: rq.get('x.rid')),
             path=_safe(lambda: rq.path),
             qs=_safe(lambda: rq.query_string),
-            xid=_safe(lambda: rq.headers.get('X-Id')),
-            cid=_safe(lambda: rq.get_cookie('cid')),
+            xid=None if defer else _safe(lambda: rq.headers.get('X-Id')),
+            cid=None if defer else _safe(lambda: rq.get_cookie('cid')),
             code=_safe(lambda: rs.status_code),
             x_rid=_safe(lambda: rs.headers.get('X-Rid')),
             x_app=_safe(lambda: rs.headers.get('X-App')),
             cookie=_safe(lambda: any(k == 'Set-Cookie' and v.startswith('k%s=v%s' % (rid, rid)) for k, v in rs.headerlist)),
         )
+        if defer:
+            del got['xid'], got['cid']
+        if self.has_fwd:
+            got['app_is_mine'] = _safe(lambda: rq.app is fr['app'])
+        return got
 
     def check(self, tag):
         """Every request in progress on this thread must still be shown by its application's objects."""
@@ -421,6 +472,10 @@ class World:
         spec = self.reqs[rid]
         app = self.apps[name]
         fr = dict(app=app, name=name, rid=rid, env=spec['env'], code=spec['code'], stage='entry')
+        if 'xid' in spec:                          # served with the environ of a copy: the headers that environ holds
+            fr['xid'], fr['cid'] = spec['xid'], spec['cid']
+        if any(op[0] == 'fwd' and not op[6] for op in spec['script']):
+            fr['defer_headers'] = True
         st = self.stack()
         st.append(fr)
         try:
@@ -471,6 +526,29 @@ class World:
         if kind == 'call':
             self.serve(op[2])
             self.tl.last = ('call', op[1], op[2])
+        elif kind == 'fwd':
+            _k, target, rid2, _script, _lazy, rewrite, look = op
+            rq = fr['app'].request
+            if look:
+                fr.pop('defer_headers', None)
+                rq.headers.get('X-Id')
+                rq.get_cookie('cid')
+            cp = rq.copy()
+            self.keep.append(cp)
+            cp['PATH_INFO'] = '/c10/' + rid2
+            cp['QUERY_STRING'] = 'id=' + rid2
+            cp['x.rid'] = rid2
+            spec2 = self.reqs[rid2]
+            if rewrite:
+                cp['HTTP_X_ID'] = rid2
+                cp['HTTP_COOKIE'] = 'cid=' + rid2
+                spec2['xid'] = spec2['cid'] = rid2
+            else:
+                spec2['xid'], spec2['cid'] = fr.get('xid', fr['rid']), fr.get('cid', fr['rid'])
+            spec2['env'] = cp.environ
+            self.serve(rid2)
+            fr.pop('defer_headers', None)
+            self.tl.last = ('fwd', target, rid2)
         elif kind == 'copy':
             cp = fr['app'].request.copy()
             self.keep.append(cp)
@@ -557,7 +635,7 @@ def _count(cfg, prog, traced):
 def _shape(prog):
     """The program without its request ids (they do not influence the number of points)."""
     def sh(op):
-        if op[0] in ('call', 'serve', 'start'):
+        if op[0] in ('call', 'serve', 'start', 'fwd'):
             return (op[0], op[1], tuple(sh(o) for o in op[3])) + tuple(op[4:])
         if op[0] == 'newserve':
             return (op[0], tuple(sh(o) for o in op[2]))
